@@ -92,6 +92,15 @@ pub fn affine_case(cx: &mut Ctx, n: u64, case: &Value) {
             chk("rotate_small_angle", format!("AffineTransform::rotate({deg}): sine entries"), (r.d() - w).abs() <= 1e-9 * w && (r.b() + w).abs() <= 1e-9 * w, format!("b = {:e}, d = {:e}", r.b(), r.d()));
             let r32 = AffineTransform::<f32>::rotate(deg as f32, geo::Coord { x: 0.0f32, y: 0.0 });
             if deg >= 1e-6 { chk("rotate_small_angle", format!("AffineTransform::<f32>::rotate({deg}): sine entries"), ((r32.d() as f64) - w).abs() <= 1e-4 * w, format!("d = {:e}", r32.d())); }
+            // ... and an f64 rotation by the very same numeric angle right after the f32 one (nothing may be shared between them)
+            for a32 in [deg as f32, 33.3f32, 211.7f32] {
+                let _ = AffineTransform::<f32>::rotate(a32, geo::Coord { x: 1.0f32, y: 1.0 });
+                let a = a32 as f64;
+                let r64 = AffineTransform::<f64>::rotate(a, geo::Coord { x: 1.0, y: 1.0 });
+                let (sn, cs) = (a.to_radians().sin(), a.to_radians().cos());
+                chk("rotate_after_f32", format!("AffineTransform::<f64>::rotate({a}) right after the f32 rotation by the same angle"),
+                    (r64.d() - sn).abs() <= 1e-14 + 1e-12 * sn.abs() && (r64.a() - cs).abs() <= 1e-14 + 1e-12 * cs.abs(), format!("a = {:e}, d = {:e}, want cos {:e}, sin {:e}", r64.a(), r64.d(), cs, sn));
+            }
         }
     }
     // values that the integer machine cannot produce: general angles, decimal factors, decimal origins (reference: the documented
